@@ -171,6 +171,73 @@ func main() {
 				c.Outcome("ok")
 			}
 		}})
+	// histories: other library calls between creating a wallet and recovering it must not matter
+	interf := []string{"none", "verify-custom-w4-same-height", "verify-custom-w256-same-height", "key-other-height", "key-other-hash", "verify-other-key", "mnemonic-decode-other", "dilithium-sign-verify", "failed-recovery-attempt", "sign-and-advance-original"}
+	ck.Domains = append(ck.Domains, &drv.Domain{Name: "recovery-histories", Size: int64(len(interf)*len(interf)) * 3, Chunk: int64(len(interf)),
+		Desc: "h=4 wallet A created, then every ordered PAIR of interfering operations (custom-w verification at the same height, keys of other height / hash, other verifications, mnemonic decoding, Dilithium use, a failed recovery attempt, signing with A), then A recovered via extended seed, mnemonic and hex seed: same public key, state and signatures; 3 hash functions",
+		Run: func(c *drv.Ctx, lo, hi int64) {
+			ni := int64(len(interf))
+			for i := lo; i < hi; i++ {
+				c.At(i)
+				hf := int(i / (ni * ni))
+				seq := []string{interf[i%ni], interf[i/ni%ni]}
+				seed := seeds.Seed48(3+hf, c.Seed)
+				a := xmss.NewXMSSFromSeed(seed, 4, xmss.HashFunction(hf), common.SHA256_2X)
+				pk0, es0, mn0 := a.GetPK(), a.GetExtendedSeed(), a.GetMnemonic()
+				sigA, _ := a.VerifClone().Sign([]byte("c09 message"))
+				for _, op := range seq {
+					drv.Call(func() {
+						switch op {
+						case "verify-custom-w4-same-height":
+							xmss.VerifyWithCustomWOTSParamW([]byte("m"), make([]byte, 4+32+133*32+4*32), pk0, 4)
+						case "verify-custom-w256-same-height":
+							xmss.VerifyWithCustomWOTSParamW([]byte("m"), make([]byte, 4+32+34*32+4*32), pk0, 256)
+						case "key-other-height":
+							xmss.NewXMSSFromSeed(seeds.Seed48(2, c.Seed), 6, xmss.HashFunction(hf), common.SHA256_2X)
+						case "key-other-hash":
+							xmss.NewXMSSFromSeed(seed, 4, xmss.HashFunction((hf+1)%3), common.SHA256_2X)
+						case "verify-other-key":
+							k := xmss.NewXMSSFromSeed(seeds.Seed48(1, c.Seed), 4, xmss.HashFunction((hf+2)%3), common.SHA256_2X)
+							sg, _ := k.Sign([]byte("x"))
+							xmss.Verify([]byte("x"), sg, k.GetPK())
+						case "mnemonic-decode-other":
+							misc.MnemonicToExtendedSeedBin(misc.ExtendedSeedBinToMnemonic([51]byte{1, 3, 0, 9, 9}))
+						case "dilithium-sign-verify":
+							d, _ := dilithium.NewDilithiumFromSeed(seed)
+							sg, _ := d.Sign([]byte("y"))
+							pk := d.GetPK()
+							dilithium.Verify([]byte("y"), sg, &pk)
+						case "failed-recovery-attempt":
+							misc.MnemonicToExtendedSeedBin(mn0 + " zzz")
+						case "sign-and-advance-original":
+							a.Sign([]byte("advance"))
+						}
+					})
+				}
+				o := drv.Call(func() {
+					for how, k := range map[string]*xmss.XMSS{
+						"extended-seed": xmss.NewXMSSFromExtendedSeed(es0),
+						"mnemonic":      xmss.NewXMSSFromExtendedSeed(misc.MnemonicToExtendedSeedBin(mn0)),
+					} {
+						sg, err := k.Sign([]byte("c09 message"))
+						if k.GetPK() != pk0 || k.GetExtendedSeed() != es0 || k.GetMnemonic() != mn0 || err != nil || !bytes.Equal(sg, sigA) || !xmss.Verify([]byte("c09 message"), sg, pk0) {
+							c.Fail(i, "recovery-after-history-differs via="+how, map[string]any{"history": seq, "hash": hf, "pk_equal": k.GetPK() == pk0, "signature_equal": bytes.Equal(sg, sigA)})
+						}
+					}
+				})
+				if o != "ok" {
+					c.Fail(i, "recovery-after-history-refused-or-faulted", map[string]any{"history": seq, "hash": hf, "observed": o})
+				}
+				c.Eval(2)
+				if seq[0] != "none" || seq[1] != "none" {
+					c.Nontrivial(1)
+				}
+				c.Outcome("ok")
+				if i == 12 {
+					c.Sample(map[string]any{"history": seq, "hash": hf})
+				}
+			}
+		}})
 	ck.Domains = append(ck.Domains, &drv.Domain{Name: "dilithium-rebuild", Size: 12, Chunk: 1, Desc: "Dilithium keys for 12 seeds rebuilt via NewDilithiumFromSeed / FromHexSeed(hex without 0x) / FromMnemonic: same pk, sk, address, seed, mnemonic, signature",
 		Run: func(c *drv.Ctx, lo, hi int64) {
 			for i := lo; i < hi; i++ {
